@@ -375,6 +375,10 @@ def run(rep, facts, tier):
     rule_18_5(rep, fx)
     rule_18_6(rep, fx)
 
+    # ------------------------------------------------------------ R18.7 crossed roles (shared lint, rdv/swaplint.py)
+    from rdv import swaplint
+    swaplint.run_rule(rep, facts['security'], 'R18.7', ['security::access_control', 'security::certificate', 'security::config'])
+
 
 # what may be done with a zoned timestamp (chrono::DateTime<FixedOffset>) read from a permissions document: only operations that keep the instant
 INSTANT_PRESERVING = ('std::convert::From::from', 'std::convert::Into::into', 'chrono::DateTime::with_timezone', 'chrono::DateTime::to_utc', 'chrono::DateTime::naive_utc',
